@@ -248,6 +248,9 @@ fn gen(rng: &mut Rng, tier: Tier, n: usize) -> Vec<String> {
     // every spelling once with a plain configuration, then random ones
     let mut out: Vec<String> = KINDS.iter().map(|k| format!("(rfs {} 2 false 0 3 1 false)", k)).collect();
     out.push("(rfs rel 1 true 1 4 1 true)".into());
+    // reuse across restarts under a size limit: the re-opened file's length counts
+    out.push("(rfs rel 3 true 150 3 2 false)".into());
+    out.push("(rfs nodir 2 true 400 6 1 false)".into());
     let extra = if tier == Tier::Thorough { n.max(60) } else { n.min(14) };
     for _ in 0..extra {
         let size = *rng.pick(&[0usize, 0, 1, 150, 400]);
